@@ -1,39 +1,48 @@
 #!/bin/bash
 # selftest/run_selftest.sh <Cxx>: the checker is tested both ways for one property.
 #  - every mutant listed for the property in index.tsv (reverts of the repairs made to the repository,
-#    and the confirmed seeded changes under ../seeded/<Cxx>-*) must make the property's check fail;
+#    grammar and quantifier mutants) and every confirmed seeded change under ../seeded/<Cxx>-* that is
+#    recorded as detected must make the property's check fail;
 #  - every benign variant listed for the property must leave it silent.
-# Each variant is applied to a scratch copy of /repo under /tmp, which is removed afterwards.
-# Exit 0 if all expectations hold, 1 otherwise (a selftest failure is a failure of the check).
+# Each variant is applied to a scratch copy of /repo under /tmp, which is removed afterwards. Variants run
+# six at a time. Exit 0 if all expectations hold, 1 otherwise (a selftest failure is a failure of the check).
 set -u
-PROP="$1"
 HERE="$(cd "$(dirname "$0")/.." && pwd)"
-BIN="$HERE/bin/gvcheck"
-fail=0; n=0
-run_variant() { # <diff> <expect: fire|silent> <label>
-  local diff="$1" expect="$2" label="$3"
-  local T; T="$(mktemp -d /tmp/gv-selftest.XXXXXX)"
-  mkdir -p "$T/repo" "$T/verif"; rsync -a --exclude .git /repo/ "$T/repo/"
+if [ "${1:-}" = "--one" ]; then
+  PROP="$2"; diff="$3"; expect="$4"; label="$5"
+  BIN="$HERE/bin/gvcheck"
+  T="$(mktemp -d /tmp/gv-selftest.XXXXXX)"
+  mkdir -p "$T/repo" "$T/verif"; rsync -a --exclude .git "${VERIF_REPO:-/repo}/" "$T/repo/"
   if ! (cd "$T/repo" && git init -q . 2>/dev/null && git apply --whitespace=nowarn "$diff" 2>/dev/null); then
-    echo "selftest $PROP: SKIP $label (does not apply to the current tree)"; rm -rf "$T"; return
+    echo "selftest $PROP: SKIP $label (does not apply to the current tree)"; rm -rf "$T"; exit 0
   fi
-  "$BIN" -repo "$T/repo" -verif "$T/verif" -known "$HERE/known_findings.json" -prop "$PROP" -tier quick >"$T/out" 2>&1; local rc=$?
-  n=$((n+1))
-  if [ "$expect" = fire ] && [ $rc -eq 0 ]; then echo "selftest $PROP: MISSED $label (check stayed silent on a breaking change)"; fail=1
-  elif [ "$expect" = silent ] && [ $rc -ne 0 ]; then echo "selftest $PROP: FALSE ALARM on $label"; grep -E '^(VIOLATED|UNDECIDED)' "$T/out" | head -2 | cut -c1-300; fail=1
+  "$BIN" -repo "$T/repo" -verif "$T/verif" -known "$HERE/known_findings.json" -prop "$PROP" -tier quick >"$T/out" 2>&1; rc=$?
+  res=0
+  if [ "$expect" = fire ] && [ $rc -eq 0 ]; then echo "selftest $PROP: MISSED $label (check stayed silent on a breaking change)"; res=1
+  elif [ "$expect" = silent ] && [ $rc -ne 0 ]; then echo "selftest $PROP: FALSE ALARM on $label"; grep -E '^(VIOLATED|UNDECIDED)' "$T/out" | head -2 | cut -c1-300; res=1
   else echo "selftest $PROP: ok $label ($expect)"; fi
   rm -rf "$T"
-}
+  exit $res
+fi
+PROP="$1"
+LIST="$(mktemp /tmp/gv-selftest-list.XXXXXX)"
 while IFS=$'\t' read -r file kind props what; do
   case ",$props," in *",$PROP,"*) ;; *) continue;; esac
-  if [ "$kind" = mutant ]; then run_variant "$HERE/selftest/$file" fire "$file: $what"; else run_variant "$HERE/selftest/$file" silent "$file: $what"; fi
-done < "$HERE/selftest/index.tsv"
+  if [ "$kind" = mutant ]; then printf '%s\t%s\t%s\n' "$HERE/selftest/$file" fire "$file: $what"; else printf '%s\t%s\t%s\n' "$HERE/selftest/$file" silent "$file: $what"; fi
+done < "$HERE/selftest/index.tsv" > "$LIST"
 for d in "$HERE"/seeded/"$PROP"-*; do
   [ -f "$d/patch.diff" ] || continue
   # only seeds recorded as detected by their own check are expectations; the others are documented misses
   if python3 -c "import json,sys; sys.exit(0 if json.load(open('$d/meta.json')).get('detected_by_own_property_check') else 1)" 2>/dev/null; then
-    run_variant "$d/patch.diff" fire "seeded/$(basename "$d")"
+    printf '%s\t%s\t%s\n' "$d/patch.diff" fire "seeded/$(basename "$d")" >> "$LIST"
   fi
 done
+n=$(wc -l < "$LIST")
+OUT="$(mktemp /tmp/gv-selftest-out.XXXXXX)"
+tr '\t' '\n' < "$LIST" | xargs -d '\n' -n 3 -P 6 "$0" --one "$PROP" > "$OUT" 2>&1; rc=$?
+sort "$OUT"
+fail=0; [ $rc -ne 0 ] && fail=1
+grep -q -E 'MISSED|FALSE ALARM' "$OUT" && fail=1
+rm -f "$LIST" "$OUT"
 echo "selftest $PROP: $n variants, $( [ $fail = 0 ] && echo all as expected || echo FAILURES )"
 exit $fail
